@@ -1,7 +1,219 @@
-(* C18 property theorems: statements only, each closed by `exact`. *)
-From Coq Require Import ZArith QArith Qcanon List Bool Arith.
-From PAFC18 Require Import Model Proofs.
+(* C18 property theorems: statements only, each closed by `exact`.
+   G, gadd, gopp, gzero, gscale: the message group (natural parameters) and its Qc-action;
+   the laws are hypotheses of each theorem; C18_instance_* show that the executed instance
+   (Normal natural parameters over Qc) satisfies them. *)
+From Coq Require Import ZArith QArith Qcanon List Bool Arith Permutation.
+From PAFC18 Require Import Model Proofs Proofs2 Witness.
 Import ListNotations.
+Local Open Scope nat_scope.
 
-Theorem C18_tmp : forall (A : Type) (i j : nat) (x d : A) (l : list A), i <> j -> nth j (replace_nth i x l) d = nth j l d.
-Proof. exact @replace_nth_other. Qed.
+Theorem C18_instance_group : group_laws N2 n_add n_opp n_zero.
+Proof. exact n2_group. Qed.
+Theorem C18_instance_module : module_laws N2 n_add n_scale.
+Proof. exact n2_module. Qed.
+
+(* every factor graph, every mean-field state, every factor i, every variable v of the factor:
+   model distribution = own message * cavity, and = the global approximation *)
+Theorem C18_model_eq :
+  forall (G : Type) (gadd : G -> G -> G) (gopp : G -> G) (gzero : G), group_laws G gadd gopp gzero ->
+  forall (i : nat) (st : state G) (v : var) (m : G), i < length st -> get G v (own G i st) = Some m ->
+    get G v (model_dist G gadd i st) = omul G gadd (Some m) (get G v (cavity G gadd i st))
+    /\ get G v (model_dist G gadd i st) = get G v (global G gadd st).
+Proof. exact model_eq. Qed.
+
+(* the cavity is the product of all OTHER factors' messages (absent when no other factor has v) *)
+Theorem C18_cavity :
+  forall (G : Type) (gadd : G -> G -> G) (i : nat) (st : state G) (v : var),
+    get G v (cavity G gadd i st) =
+    if has_var v (keys G (own G i st)) then prod_at G gadd v None (remove_nth i st) else None.
+Proof. exact cavity_get. Qed.
+
+(* the global approximation is the product of ALL factors' messages, for every variable *)
+Theorem C18_global :
+  forall (G : Type) (gadd : G -> G -> G) (gopp : G -> G) (gzero : G), group_laws G gadd gopp gzero ->
+  forall (st : state G) (v : var), get G v (global G gadd st) = prod_at G gadd v None st.
+Proof. exact global_get. Qed.
+
+(* "product of the messages": a fold over the factors, independent of dict order *)
+Theorem C18_product_fold :
+  forall (G : Type) (gadd : G -> G -> G) (gopp : G -> G) (gzero : G), group_laws G gadd gopp gzero ->
+  forall (v : var) (ms : list (mf G)), prod_at G gadd v None ms = fold_right (omul G gadd) None (map (get G v) ms).
+Proof. exact prod_at_fold. Qed.
+Theorem C18_product_order_free :
+  forall (G : Type) (gadd : G -> G -> G) (gopp : G -> G) (gzero : G), group_laws G gadd gopp gzero ->
+  forall (v : var) (ms ms' : list (mf G)), Permutation ms ms' -> prod_at G gadd v None ms = prod_at G gadd v None ms'.
+Proof. exact prod_at_perm. Qed.
+
+(* an update of factor i (any damping, any approximation handed in) changes only factor i *)
+Theorem C18_update_local :
+  forall (G : Type) (gadd : G -> G -> G) (gopp : G -> G) (gscale : Qc -> G -> G) (gvalid : G -> bool)
+         (i j : nat) (dl : delta) (cavd last new : mf G) (st : state G),
+    i <> j -> own G j (project G gadd gopp gscale gvalid i dl cavd last new st) = own G j st.
+Proof. exact project_other. Qed.
+Theorem C18_update_length :
+  forall (G : Type) (gadd : G -> G -> G) (gopp : G -> G) (gscale : Qc -> G -> G) (gvalid : G -> bool)
+         (i : nat) (dl : delta) (cavd last new : mf G) (st : state G),
+    length (project G gadd gopp gscale gvalid i dl cavd last new st) = length st.
+Proof. exact project_length. Qed.
+
+(* a full update (delta >= 1) whose projection new/cavity is a proper distribution makes the
+   global approximation equal the fitted distribution, variable by variable *)
+Theorem C18_update_exact :
+  forall (G : Type) (gadd : G -> G -> G) (gopp : G -> G) (gzero : G) (gscale : Qc -> G -> G) (gvalid : G -> bool),
+  group_laws G gadd gopp gzero ->
+  forall (i : nat) (dl : delta) (new : mf G) (st : state G) (v : var) (nw : G),
+    i < length st -> is_full dl = true -> get G v new = Some nw -> In v (keys G (own G i st)) ->
+    gvalid (full_cand G gadd gopp nw (get G v (cavity G gadd i st))) = true ->
+    get G v (global G gadd (step G gadd gopp gscale gvalid i dl new st)) = Some nw.
+Proof. exact update_exact. Qed.
+
+(* a damped update moves the global approximation to d * new + (1 - d) * old *)
+Theorem C18_update_damped :
+  forall (G : Type) (gadd : G -> G -> G) (gopp : G -> G) (gzero : G) (gscale : Qc -> G -> G) (gvalid : G -> bool),
+  group_laws G gadd gopp gzero -> module_laws G gadd gscale ->
+  forall (i : nat) (dl : delta) (new : mf G) (st : state G) (v : var) (nw l g : G),
+    i < length st -> is_full dl = false -> get G v new = Some nw -> get G v (own G i st) = Some l ->
+    get G v (global G gadd st) = Some g ->
+    cand_valid G gvalid (cand G gadd gopp gscale dl (cavity G gadd i st) (own G i st) v nw) = true ->
+    get G v (global G gadd (step G gadd gopp gscale gvalid i dl new st)) =
+    Some (gadd (gscale (delta_at dl v) nw) (gscale (Q2Qc 1 - delta_at dl v)%Qc g)).
+Proof. exact update_damped. Qed.
+
+(* an improper projection keeps that variable's message and global approximation *)
+Theorem C18_update_invalid_keeps :
+  forall (G : Type) (gadd : G -> G -> G) (gopp : G -> G) (gzero : G) (gscale : Qc -> G -> G) (gvalid : G -> bool),
+  group_laws G gadd gopp gzero ->
+  forall (i : nat) (dl : delta) (new : mf G) (st : state G) (v : var) (nw l : G),
+    i < length st -> get G v new = Some nw -> get G v (own G i st) = Some l ->
+    cand_valid G gvalid (cand G gadd gopp gscale dl (cavity G gadd i st) (own G i st) v nw) = false ->
+    get G v (own G i (step G gadd gopp gscale gvalid i dl new st)) = Some l
+    /\ get G v (global G gadd (step G gadd gopp gscale gvalid i dl new st)) = get G v (global G gadd st).
+Proof. exact update_invalid_keeps. Qed.
+
+(* per-variable damping as DynamicUpdater passes it: the full statement "delta = 1 means a full
+   update" is refuted for the code as it stands (the variable is never updated) *)
+Theorem C18_update_per_variable_delta_one_refuted :
+  exists (st : state N2) i dl new v nw,
+    i < length st /\ get N2 v new = Some nw /\ In v (keys N2 (own N2 i st))
+    /\ delta_at dl v = Q2Qc 1
+    /\ n_valid (full_cand N2 n_add n_opp nw (get N2 v (n_cavity i st))) = true
+    /\ get N2 v (n_global (step N2 n_add n_opp n_scale n_valid i dl new st)) <> Some nw.
+Proof. exact per_variable_delta_one_refuted. Qed.
+
+(* every sequence of updates of every kind: untouched factors keep their message, and the
+   identities hold in the state reached *)
+Theorem C18_untouched_factor :
+  forall (G : Type) (gadd : G -> G -> G) (gopp : G -> G) (gscale : Qc -> G -> G) (gvalid : G -> bool)
+         (steps : list (nat * delta * mf G)) (st : state G) (j : nat),
+    (forall x, In x steps -> fst (fst x) <> j) ->
+    own G j (run_steps G gadd gopp gscale gvalid steps st) = own G j st.
+Proof. exact untouched_factor. Qed.
+Theorem C18_identities_after_any_sequence :
+  forall (G : Type) (gadd : G -> G -> G) (gopp : G -> G) (gzero : G) (gscale : Qc -> G -> G) (gvalid : G -> bool),
+  group_laws G gadd gopp gzero ->
+  forall (steps : list (nat * delta * mf G)) (st : state G) (i : nat) (v : var) (m : G),
+    i < length st ->
+    get G v (own G i (run_steps G gadd gopp gscale gvalid steps st)) = Some m ->
+    get G v (model_dist G gadd i (run_steps G gadd gopp gscale gvalid steps st)) =
+      omul G gadd (Some m) (get G v (cavity G gadd i (run_steps G gadd gopp gscale gvalid steps st)))
+    /\ get G v (model_dist G gadd i (run_steps G gadd gopp gscale gvalid steps st)) =
+       get G v (global G gadd (run_steps G gadd gopp gscale gvalid steps st))
+    /\ get G v (global G gadd (run_steps G gadd gopp gscale gvalid steps st)) =
+       fold_right (omul G gadd) None (map (get G v) (run_steps G gadd gopp gscale gvalid steps st)).
+Proof. exact identities_after_any_sequence. Qed.
+
+(* EPOptimiser.run with any scripted optimisers: the log is extended by a chain of entries, each
+   the projection of the visited factor against the CURRENT state; other factors are untouched *)
+Theorem C18_run_chain :
+  forall (G : Type) (gadd : G -> G -> G) (gopp : G -> G) (gscale : Qc -> G -> G) (gvalid : G -> bool)
+         (n : nat) (dl : delta) (sc : list (list (outcome G))) (stop : option (nat * nat)) (order : list nat)
+         (st : state G) (log : list (nat * hentry G)) (st' : state G) (log' : list (nat * hentry G)),
+    run G gadd gopp gscale gvalid n dl sc stop order st log = (st', log') ->
+    exists ext, log' = log ++ ext /\ chain G gadd gopp gscale gvalid dl st ext st'.
+Proof. exact run_chain. Qed.
+Theorem C18_run_local :
+  forall (G : Type) (gadd : G -> G -> G) (gopp : G -> G) (gscale : Qc -> G -> G) (gvalid : G -> bool)
+         (dl : delta) (st : state G) (ext : list (nat * hentry G)) (st' : state G),
+    chain G gadd gopp gscale gvalid dl st ext st' ->
+    forall j, (forall x, In x ext -> fst x <> j) -> own G j st' = own G j st.
+Proof. exact chain_local. Qed.
+
+(* ParallelEPOptimiser projects against approximations computed before the sweep: exactness fails *)
+Theorem C18_stale_update_not_exact :
+  exists (st : state N2) new0 new1 v nw,
+    get N2 v new1 = Some nw /\
+    let st1 := step N2 n_add n_opp n_scale n_valid 0 (DScalar (Q2Qc 1)) new0 st in
+    let stale := n_project 1 (DScalar (Q2Qc 1)) (n_cavity 1 st) (own N2 1 st) new1 st1 in
+    get N2 v (n_global (step N2 n_add n_opp n_scale n_valid 1 (DScalar (Q2Qc 1)) new1 st1)) = Some nw
+    /\ get N2 v (n_global stale) <> Some nw.
+Proof. exact stale_update_not_exact. Qed.
+
+(* ---------- start of a declarative fit: cavity = user's prior ---------- *)
+(* counting factors (documented meaning, proposed repair), prior factors included: full statement *)
+Theorem C18_init_cavity_fixed :
+  forall (G : Type) (gadd : G -> G -> G) (gopp : G -> G) (gzero : G) (gscale : Qc -> G -> G),
+  group_laws G gadd gopp gzero -> module_laws G gadd gscale ->
+  forall (fs : list (list var)) (pf : list var) (priors : mf G) (dflt : G) (i : nat) (v : var),
+    pf_ok fs pf = true -> i < length (graph_factors true fs pf) -> In v (nth i (graph_factors true fs pf) []) ->
+    get G v (cavity G gadd i (init_state G gscale false true fs pf priors dflt)) = Some (prior_of G priors v dflt).
+Proof. exact init_cavity_fixed. Qed.
+(* the code as it stands (counting occurrences): refuted in general ... *)
+Theorem C18_init_cavity_refuted :
+  exists fs pf priors i v,
+    pf_ok fs pf = true /\ i < length (graph_factors true fs pf) /\ In v (nth i (graph_factors true fs pf) [])
+    /\ get N2 v (n_cavity i (init_state N2 n_scale true true fs pf priors n_zero)) <> Some (prior_of N2 priors v n_zero).
+Proof. exact init_cavity_refuted. Qed.
+Theorem C18_init_cavity_without_prior_factors_refuted :
+  exists fs priors i v,
+    i < length (graph_factors false fs []) /\ In v (nth i (graph_factors false fs []) [])
+    /\ get N2 v (n_cavity i (init_state N2 n_scale true false fs [] priors n_zero)) <> Some (prior_of N2 priors v n_zero).
+Proof. exact init_cavity_without_prior_factors_refuted. Qed.
+(* ... and proved for a variable no factor lists twice that has a prior factor or two owners *)
+Theorem C18_init_cavity_partial :
+  forall (G : Type) (gadd : G -> G -> G) (gopp : G -> G) (gzero : G) (gscale : Qc -> G -> G),
+  group_laws G gadd gopp gzero -> module_laws G gadd gscale ->
+  forall (include : bool) (fs : list (list var)) (pf : list var) (priors : mf G) (dflt : G) (i : nat) (v : var),
+    (include = true -> pf_ok fs pf = true) ->
+    i < length (graph_factors include fs pf) -> In v (nth i (graph_factors include fs pf) []) ->
+    (forall f, In f fs -> count_in v f <= 1) ->
+    (include = true \/ 2 <= length (filter (has_var v) fs)) ->
+    get G v (cavity G gadd i (init_state G gscale true include fs pf priors dflt)) = Some (prior_of G priors v dflt).
+Proof. exact init_cavity_partial. Qed.
+
+(* ---------- result accessors: the most recent entry per factor ---------- *)
+Theorem C18_latest :
+  forall (G : Type) (p : hentry G -> bool) (h : list (hentry G)) (d : hentry G),
+    match latest_pos G p h with
+    | Some k => k < length h /\ p (nth k h d) = true /\ (forall j, k < j < length h -> p (nth j h d) = false)
+    | None => forall j, j < length h -> p (nth j h d) = false
+    end.
+Proof. exact latest_pos_spec. Qed.
+Theorem C18_history_append_only :
+  forall (G : Type) (i j : nat) (e : hentry G) (log : list (nat * hentry G)),
+    history_of G i (log ++ [(j, e)]) = if Nat.eqb j i then history_of G i log ++ [e] else history_of G i log.
+Proof. exact history_of_snoc. Qed.
+(* latest_result with [-1] (docstring / proposed repair): result of the most recent success *)
+Theorem C18_latest_result_fixed :
+  forall (G : Type) (h : list (hentry G)) (d : hentry G),
+    latest_result G false h =
+    match latest_successful G h with Some k => Some (h_token (nth k h d)) | None => None end.
+Proof. exact latest_result_last_spec. Qed.
+(* latest_result with [0] (the code as it stands): refuted, and proved when at most one success *)
+Theorem C18_latest_result_refuted :
+  exists h : list (hentry N2),
+    latest_result N2 true h <>
+    match latest_successful N2 h with Some k => Some (h_token (nth k h (h_ok 0))) | None => None end.
+Proof. exact latest_result_refuted. Qed.
+Theorem C18_latest_result_partial :
+  forall (G : Type) (h : list (hentry G)),
+    length (filter h_success h) <= 1 -> latest_result G true h = latest_result G false h.
+Proof. exact latest_result_first_partial. Qed.
+
+Print Assumptions C18_model_eq.
+Print Assumptions C18_update_exact.
+Print Assumptions C18_update_damped.
+Print Assumptions C18_init_cavity_fixed.
+Print Assumptions C18_init_cavity_refuted.
+Print Assumptions C18_run_chain.
+Print Assumptions C18_latest.
+Print Assumptions C18_stale_update_not_exact.
